@@ -23,7 +23,7 @@ ASSUMPTIONS = [
 ]
 OUTSIDE = ["n_thetas above the bound for the assembly part", "IEEE rounding of the metric", "the CLI wrapper's argument parsing"]
 RULE = "chunk counts, chunk indices and the order/repetition of chunk files at combination time are solver-chosen (forked); distance values are symbolic reals."
-BUDGET_S = {"quick": 200, "thorough": 1500}
+BUDGET_S = {"quick": 600, "thorough": 3000}
 
 
 def configs(tier, seed):
